@@ -307,12 +307,24 @@ def gen_block(r, reads):
         elif k == 5:
             nfn += 1
             fn = "fn%d" % nfn
+            # a local of the function may be named like an outer name the template reads elsewhere: it stays the
+            # function's own (the function itself then never reads the outer one)
+            shadow = r.choice(list(reads)) if reads and r.random() < 0.4 else None
+            freads = [x for x in reads if x != shadow]
             sig, names, call = gen_sig(r, 3, reads, bound)
-            body = ["    n0 = %s" % gen_int_expr(r, 2, reads, names)]
+            body = ["    n0 = %s" % gen_int_expr(r, 2, freads, names)]
+            if shadow and r.random() < 0.5:
+                body.append("    %s = n0 + 1" % shadow)
+                names = names + [shadow]
+                shadow = None
             if r.random() < 0.4:
-                sig2, names2, call2 = gen_sig(r, 2, reads, names)
-                body += ["    def inner_(%s):" % sig2, "        n1 = %s" % gen_int_expr(r, 1, reads, names + names2 + ["n0"]),
+                sig2, names2, call2 = gen_sig(r, 2, freads, names)
+                body += ["    def inner_(%s):" % sig2, "        n1 = %s" % gen_int_expr(r, 1, freads, names + names2 + ["n0"]),
                          "        return n1", "    n0 += inner_(%s)" % call2]
+            elif r.random() < 0.4:
+                body += ["    key_ = lambda s_: s_ + %s" % gen_int_expr(r, 0, freads, names), "    n0 = key_(n0)"]
+            if shadow:
+                body += ["    %s = n0 * 2" % shadow, "    n0 += %s" % shadow]
             body.append("    return n0")
             lines += ["def %s(%s):" % (fn, sig)] + body + ["%s = %s(%s)" % (tgt, fn, call)]
         elif k == 6:
@@ -369,6 +381,11 @@ def run_scope(case, res):
         if set(ctx) != need:
             res.violate("generator-bug", "block needs %r" % (need,))
             continue
+        ns = dict(ctx)
+        # after the block every outer name is read once more: it must still be the context's value
+        bound = bound + reads
+        ctx.update({n: 10 + int(n[1:]) for n in reads})
+        need = need | set(reads)
         ns = dict(ctx)
         try:
             exec(compile("def __w():\n" + "\n".join("    " + ln for ln in lines) + "\n    return [%s]\n" % ", ".join(bound), "<native>", "exec"), ns)
@@ -453,6 +470,12 @@ SHAPES = [
     ([("d = {'k': [1,", 1), ("          2]}", 1), ("e = d['k'][1]", 1)], ["d", "e"]),
     ([("try:", 1), ("    q = 1 // 0", 1), ("except ZeroDivisionError:", 1), ("    q = 'caught'", 1), ("finally:", 1), ("    p = 'fin'", 1)], ["q", "p"]),
     ([("s = 'a' \\", 1), ("    'b'", 1)], ["s"]),
+    ([('s = "a#b\\', 1), ('tail"', 0), ('n = len(s)', 1)], ['s', 'n']),
+    ([("s = 'it\\'s # 50%\\", 1), ("  tail'", 0), ('n = len(s)', 1)], ['s', 'n']),
+    ([("t = '#' + \\", 1), ("    'b'", 1), ('u = t * 2', 1)], ['t', 'u']),
+    ([('t = [1,  # one "', 1), ("     2]  # two '''x", 1)], ['t']),
+    ([('x = 1  # path is c:\\', 1), ('y = 2', 1)], ['x', 'y']),
+    ([('# only a comment \\', 1), ('y = 3', 1), ('if y:', 1), ('    z = 4  # c:\\', 1), ('    w = 5', 1)], ['y', 'z', 'w']),
     ([("class K:", 1), ("    attr = 'v'", 1), ("    def m(self):", 1), ("        return self.attr", 1), ("k = K().m()", 1)], ["k"]),
 ]
 
@@ -470,7 +493,8 @@ def printer_quote_count_misled(base):
     inside_true = [False] * len(lines)
     try:
         for tok in tokenize.generate_tokens(io.StringIO(base + "\n").readline):
-            if tok.type == tokenize.STRING and tok.end[0] > tok.start[0]:
+            # (a single-quoted literal continued by backslash-newline is the printer's other flag, not this finding)
+            if tok.type == tokenize.STRING and tok.end[0] > tok.start[0] and re.match(r"[A-Za-z]*(\"\"\"|\'\'\')", tok.string):
                 for ln in range(tok.start[0] + 1, tok.end[0] + 1):
                     inside_true[ln - 1] = True
     except (tokenize.TokenError, IndentationError, SyntaxError):
@@ -483,6 +507,21 @@ def printer_quote_count_misled(base):
         if triples % 2:
             state = not state
     return state  # still 'open' at the end of the block: everything after it is left unindented
+
+
+CB_WITNESS = "a comment ending in a backslash (x = 1  # path is c:%s) followed by another statement" % chr(92)
+
+
+def comment_ends_in_backslash(base):
+    """recogniser for C19/comment-ending-in-backslash: some comment of the block ends in a backslash (which
+    does not join lines in Python, but PythonPrinter and adjust_whitespace treat the next line as a continuation)"""
+    import io
+    import tokenize
+
+    try:
+        return any(tok.type == tokenize.COMMENT and tok.string.endswith(chr(92)) for tok in tokenize.generate_tokens(io.StringIO(base + "\n").readline))
+    except (tokenize.TokenError, IndentationError, SyntaxError):
+        return False
 
 
 def run_margin(case, res):
@@ -499,18 +538,21 @@ def run_margin(case, res):
     text = opener + eol + body + eol + "%>[" + ", ".join("${repr(%s)}" % b for b in bound) + "]"
     res.evaluations += 1
     fid = "C19/printer-triple-quote-count" if printer_quote_count_misled(base) else None
+    if fid is None and comment_ends_in_backslash(base):
+        fid = "C19/comment-ending-in-backslash"
+    wit = CB_WITNESS if fid == "C19/comment-ending-in-backslash" else "shape %d: %r" % (shape_i, base)
     try:
         out = T(text).render_unicode()
     except Exception as e:
         res.violate("margin-raises", "block at margin %d%s (%s):\n%s\nraised %s: %s" % (margin, "T" if ch == "\t" else "S", opener, body, type(e).__name__, e),
-                    finding=fid, witness="shape %d: %r" % (shape_i, base))
+                    finding=fid, witness=wit)
         return
     res.count("margin_renders")
     if margin:
         res.nontrivial("margin", shape_i, margin, ch, module, eol)
     if out != exp:
         res.violate("margin-value", "block at margin %d%s (%s):\n%s\ngives %s, native exec of the margin-0 text gives %s" % (margin, "T" if ch == "\t" else "S", opener, body, out, exp),
-                    finding=fid, witness="shape %d: %r" % (shape_i, base))
+                    finding=fid, witness=wit)
     if res.sample is None:
         res.sample = {"kind": "margin", "template": text, "expected": exp}
 
